@@ -13,9 +13,14 @@ Definition bs (x : string) : bytes := list_ascii_of_string x.
 Definition omap {A B} (f : A -> B) (x : option A) : option B :=
   match x with Some a => Some (f a) | None => None end.
 
-(* os.fsencode of chr(v) for an octal escape value v *)
+(* the file-name bytes that open() sees for an octal escape of value v (< 256): with
+   PDLatin1Bytes (the code re-encodes the unescaped text latin-1) the byte itself; with
+   PDCodePoints the UTF-8 encoding of the code point v *)
 Definition pyenc (v : N) : bytes :=
-  if v <? 128 then [ch v] else [ch (192 + v / 64); ch (128 + v mod 64)].
+  match cookie_path_decode with
+  | PDLatin1Bytes => [ch v]
+  | PDCodePoints => if v <? 128 then [ch v] else [ch (192 + v / 64); ch (128 + v mod 64)]
+  end.
 Definition octv (a : ascii) : option N :=
   let c := code a in if (48 <=? c) && (c <=? 55) then Some (c - 48) else None.
 
